@@ -17,7 +17,7 @@ import (
 func init() {
 	ev.Register(&ev.Spec{
 		ID: "C09", Level: "exploration",
-		Rule:    "hostile and legal-but-odd name strings placed in every name position of every name-bearing T-message (walk component i of n, create, mkdir, symlink, mknod, link, rename, renameat old/new, unlinkat, attach name), plus walks whose intermediate component is a file/symlink/fifo/device, and walks that start at a fid Tlcreate bound to the regular file it created (or at a clone of it); the backend's online name monitor sees every name argument. Non-trivial: request carries >= 1 name; distinct by (message, position, string class).",
+		Rule:    "hostile and legal-but-odd name strings placed in every name position of every name-bearing T-message (walk component i of n, create, mkdir, symlink, mknod, link, rename, renameat old/new, unlinkat, attach name), plus walks whose intermediate component is a file/symlink/fifo/device, and walks that start at a fid Tlcreate bound to the regular file it created (or at a clone of it), and Trenameat / Trename whose target-directory fid is bound to a file, symlink, fifo or device; the backend's online name monitor sees every name argument. Non-trivial: request carries >= 1 name; distinct by (message, position, string class).",
 		Assume:  []string{"memfs name monitor runs under the backend's event lock", "for attach names with empty/dot components both EINVAL and a cleaned walk are accepted; the hard oracle is what reaches the backend"},
 		Shards:  shards(4, 16),
 		Timeout: timeout(5*time.Minute, 30*time.Minute),
